@@ -45,7 +45,21 @@ impl Drop for Sandbox {
     }
 }
 
+pub fn process_base() -> PathBuf {
+    let base = if Path::new("/dev/shm").is_dir() { PathBuf::from("/dev/shm") } else { std::env::temp_dir() };
+    base.join(format!("tftpd-sim-{:07}", std::process::id()))
+}
+
+/// The working directory of a simulating process: relative paths used by the bundled client
+/// resolve inside the process's own scratch area.
+pub fn enter_process_base() {
+    let b = process_base();
+    std::fs::create_dir_all(&b).expect("process base");
+    std::env::set_current_dir(&b).expect("chdir");
+}
+
 pub fn cleanup_process_sandbox() {
+    let _ = std::env::set_current_dir("/");
     let base = if Path::new("/dev/shm").is_dir() { PathBuf::from("/dev/shm") } else { std::env::temp_dir() };
     let _ = std::fs::remove_dir_all(base.join(format!("tftpd-sim-{:07}", std::process::id())));
 }
